@@ -1183,7 +1183,13 @@ class Engine:
             if args:
                 a = z3.simplify(args[0].e)
                 if not z3.is_string_value(a):
-                    raise OutOfSubset('strip with non-literal chars', node)
+                    # symbolic character set: an uninterpreted result with the facts that hold for
+                    # every character set (substring, not longer; unchanged when chars is empty)
+                    r = self.call_ufunc_auto('str_%s_chars' % name, [s, args[0]], STR)
+                    st.assume(z3.Length(r.e) <= z3.Length(s.e))
+                    st.assume(z3.Contains(s.e, r.e))
+                    st.assume(z3.Implies(z3.Length(args[0].e) == 0, r.e == s.e))
+                    return r
                 chars = a.as_string()
             return self.strip_like(st, s, chars, name in ('strip', 'lstrip'), name in ('strip', 'rstrip'))
         if name == 'startswith' or name == 'endswith':
